@@ -112,6 +112,7 @@ impl<T: Sample + std::hash::Hash + Eq> Sample for HashSet<T> { fn sample(v: u32)
 impl<T: Sample + Ord> Sample for BTreeSet<T> { fn sample(v: u32) -> Self { let mut s = BTreeSet::new(); if v != 0 { s.insert(T::sample(v)); } s } }
 impl<K: Sample + std::hash::Hash + Eq, V: Sample> Sample for HashMap<K, V> { fn sample(v: u32) -> Self { let mut s = HashMap::new(); if v != 0 { s.insert(K::sample(v), V::sample(v)); } s } }
 impl<K: Sample + Ord, V: Sample> Sample for BTreeMap<K, V> { fn sample(v: u32) -> Self { let mut s = BTreeMap::new(); if v != 0 { s.insert(K::sample(v), V::sample(v)); } s } }
+impl<A: Sample> Sample for (A,) { fn sample(v: u32) -> Self { (A::sample(v),) } }
 impl<A: Sample, B: Sample> Sample for (A, B) { fn sample(v: u32) -> Self { (A::sample(v), B::sample(v)) } }
 impl<A: Sample, B: Sample, C: Sample> Sample for (A, B, C) { fn sample(v: u32) -> Self { (A::sample(v), B::sample(v), C::sample(v)) } }
 impl<A: Sample, B: Sample, C: Sample, D: Sample> Sample for (A, B, C, D) { fn sample(v: u32) -> Self { (A::sample(v), B::sample(v), C::sample(v), D::sample(v)) } }
